@@ -89,6 +89,28 @@ type c17Case struct {
 	Start      int   `json:"start"`                 // level index
 	Stop       int   `json:"stop"`                  // level index, or -1 = unrelated directory
 	ChildAfter bool  `json:"child_after,omitempty"` // chain directories sort after "spokfile"
+	StartSp    int   `json:"start_sp,omitempty"`    // how the start directory is spelled (c17Spell)
+	StopSp     int   `json:"stop_sp,omitempty"`     // how the stop directory is spelled
+}
+
+var c17SpellNames = []string{"clean", "trailing-slash", "trailing-slash-dot", "doubled-separator", "down-and-up"}
+
+// c17Spell: the same directory written differently. child is the name of a
+// sub-directory that exists ("" if none).
+func c17Spell(dir string, sp int, child string) string {
+	switch sp {
+	case 1:
+		return dir + "/"
+	case 2:
+		return dir + "/."
+	case 3:
+		return filepath.Dir(dir) + "//" + filepath.Base(dir)
+	case 4:
+		if child != "" {
+			return dir + "/" + child + "/.."
+		}
+	}
+	return dir
 }
 
 // c17Oracle: dirs[i] is the directory of level i.
@@ -179,7 +201,17 @@ func c17RunCase(c c17Case, dirs []string, unrelated string, res *c17Result) {
 	if c.Stop >= 0 {
 		stop = dirs[c.Stop]
 	}
-	out := c17Find(dirs[c.Start], stop)
+	child := func(level int) string {
+		if level >= 0 && level+1 < len(dirs) {
+			return filepath.Base(dirs[level+1])
+		}
+		return ""
+	}
+	stopChild := child(c.Stop)
+	if c.Stop < 0 {
+		stopChild = ""
+	}
+	out := c17Find(c17Spell(dirs[c.Start], c.StartSp, child(c.Start)), c17Spell(stop, c.StopSp, stopChild))
 	res.Calls++
 	if out.Visited > 1 {
 		res.Nontriv++
@@ -189,13 +221,16 @@ func c17RunCase(c c17Case, dirs []string, unrelated string, res *c17Result) {
 	if out.Err != "" {
 		key = "ok-notfound"
 	}
+	if cls != "" && (c.StartSp != 0 || c.StopSp != 0) {
+		cls += "-path-not-in-shortest-form"
+	}
 	if cls != "" {
 		key = "violation:" + cls
 		if len(res.Viol) < 40 {
 			var m map[string]any
 			json.Unmarshal(pool.MustJSON(c), &m)
-			res.Viol = append(res.Viol, ev.Violation{Engine: "cfgmc-c17", Key: fmt.Sprintf("levels=%v start=%d stop=%d childAfter=%v", c.Levels, c.Start, c.Stop, c.ChildAfter), Class: cls,
-				What: fmt.Sprintf("chain %s start=level%d stop=%s: %s", c17Describe(c), c.Start, c17StopName(c.Stop), what), Case: m})
+			res.Viol = append(res.Viol, ev.Violation{Engine: "cfgmc-c17", Key: fmt.Sprintf("levels=%v start=%d stop=%d childAfter=%v spell=%d/%d", c.Levels, c.Start, c.Stop, c.ChildAfter, c.StartSp, c.StopSp), Class: cls,
+				What: fmt.Sprintf("chain %s start=level%d (spelled %s) stop=%s (spelled %s): %s", c17Describe(c), c.Start, c17SpellNames[c.StartSp], c17StopName(c.Stop), c17SpellNames[c.StopSp], what), Case: m})
 		}
 	}
 	res.Outcomes[key]++
@@ -259,6 +294,28 @@ func c17Worker(args []string) {
 					for stop := -1; stop < c17Depth; stop++ {
 						c := c17Case{Levels: append([]int{}, levels...), Start: start, Stop: stop, ChildAfter: after}
 						c17RunCase(c, dirs, unrelated, &res)
+						// the same directories under other spellings: all chains in the thorough tier,
+						// the 16 chains of bare {nothing, spokfile} levels in the quick one
+						if tier != "thorough" {
+							bare := true
+							for _, v := range levels {
+								if v != 0 && v != 4 {
+									bare = false
+								}
+							}
+							if !bare {
+								continue
+							}
+						}
+						for ssp := 0; ssp < len(c17SpellNames); ssp++ {
+							for tsp := 0; tsp < len(c17SpellNames); tsp++ {
+								if ssp == 0 && tsp == 0 {
+									continue
+								}
+								c.StartSp, c.StopSp = ssp, tsp
+								c17RunCase(c, dirs, unrelated, &res)
+							}
+						}
 						if len(res.Samples) < 2 && res.Chains%97 == 5 && start == 3 && stop == 0 {
 							res.Samples = append(res.Samples, map[string]any{"chain": c17Describe(c), "start": start, "stop": c17StopName(stop)})
 						}
@@ -362,7 +419,7 @@ func c17Check(tier string) int {
 	run.Set("evaluations", total.Calls)
 	run.Set("distinct_nontrivial", total.Nontriv)
 	run.Set("outcomes", total.Outcomes)
-	run.Set("rule", "states = directory chains of depth 4, each level independently one of 12 contents ({nothing, a file sorting before, after, both} x {no spokfile, regular file, directory named spokfile}); transitions = file.Find(start, stop) calls for every start level x stop in {every level, an unrelated directory} (thorough: also with chain directory names sorting after 'spokfile'); non-termination is a deterministic verdict (a counting logger sees a directory visited a third time); non-trivial = search that looks in more than one directory")
+	run.Set("rule", "states = directory chains of depth 4, each level independently one of 12 contents ({nothing, a file sorting before, after, both} x {no spokfile, regular file, directory named spokfile}); transitions = file.Find(start, stop) calls for every start level x stop in {every level, an unrelated directory} (thorough: also with chain directory names sorting after 'spokfile'), and with start and stop each spelled in five ways (clean, trailing slash, trailing /., doubled separator, down into a sub-directory and up again) for the 16 chains of bare levels (thorough: all chains); non-termination is a deterministic verdict (a counting logger sees a directory visited a third time); non-trivial = search that looks in more than one directory")
 	run.Assumes("no file named spokfile exists above the sandbox (checked)", "Find keeps logging each directory it looks in; a non-logging implementation is still covered by the worker watchdog (60 s)")
 	return run.Finish()
 }
@@ -391,7 +448,7 @@ func c17Replay(path string) int {
 		c17Populate(dirs[i], lv)
 	}
 	res := c17Result{Outcomes: map[string]int64{}}
-	fmt.Printf("replaying C17: chain %s start=level%d stop=%s\n", c17Describe(c), c.Start, c17StopName(c.Stop))
+	fmt.Printf("replaying C17: chain %s start=level%d (%s) stop=%s (%s)\n", c17Describe(c), c.Start, c17SpellNames[c.StartSp], c17StopName(c.Stop), c17SpellNames[c.StopSp])
 	c17RunCase(c, dirs, unrelated, &res)
 	if len(res.Viol) > 0 {
 		fmt.Printf("VIOLATION property=C17 replay=%s\n  %s\n", path, res.Viol[0].What)
@@ -421,15 +478,40 @@ func c17Binary(run *ev.Run) int64 {
 			}
 		}
 		for start := 1; start <= 3; start++ {
-			for _, style := range []string{"real", "link"} {
+			for _, style := range []string{"real", "link", "home-trailing-slash", "home-doubled-separator", "cwd-trailing-slash", "cwd-doubled-separator", "cwd-down-and-up", "unreadable-1", "unreadable-2", "unreadable-3"} {
 				home := filepath.Join(root, "real/home")
 				cwd := filepath.Join(root, levels[start])
-				if style == "link" {
+				unreadable := 0
+				switch style {
+				case "link":
 					home = filepath.Join(root, "homelink")
 					cwd = filepath.Join(home, strings.TrimPrefix(levels[start], "real/home"))
+				case "home-trailing-slash":
+					home += "/"
+				case "home-doubled-separator":
+					home = filepath.Join(root, "real") + "//home"
+				case "cwd-trailing-slash":
+					cwd += "/"
+				case "cwd-doubled-separator":
+					cwd = filepath.Dir(cwd) + "//" + filepath.Base(cwd)
+				case "cwd-down-and-up":
+					if start == 3 {
+						continue
+					}
+					cwd = filepath.Join(root, levels[start+1]) + "/.."
+				case "unreadable-1", "unreadable-2", "unreadable-3":
+					// a directory on the way that may be entered but not listed
+					unreadable = int(style[len(style)-1] - '0')
+					if unreadable > start {
+						continue
+					}
+					os.Chmod(filepath.Join(root, levels[unreadable]), 0o311)
 				}
 				o := bin.Run(cwd, home, nil, "--show")
 				calls++
+				if unreadable > 0 {
+					os.Chmod(filepath.Join(root, levels[unreadable]), 0o755)
+				}
 				want := -1
 				for i := start; i >= 1; i-- {
 					if mask&(1<<i) != 0 {
@@ -438,7 +520,9 @@ func c17Binary(run *ev.Run) int64 {
 					}
 				}
 				key := fmt.Sprintf("binary mask=%d start=%d style=%s", mask, start, style)
-				desc := fmt.Sprintf("spokfiles at levels %04b (bit 0 = the directory above $HOME), cwd = level %d, $HOME %s", mask, start, map[string]string{"real": "a plain path", "link": "a symbolic link, cwd below it"}[style])
+				desc := fmt.Sprintf("spokfiles at levels %04b (bit 0 = the directory above $HOME), cwd = level %d, $HOME %s", mask, start, map[string]string{"real": "a plain path", "link": "a symbolic link, cwd below it", "home-trailing-slash": "with a trailing slash", "home-doubled-separator": "with a doubled separator",
+					"cwd-trailing-slash": "plain, $PWD with a trailing slash", "cwd-doubled-separator": "plain, $PWD with a doubled separator", "cwd-down-and-up": "plain, $PWD = <sub-directory>/..",
+					"unreadable-1": "plain, level 1 has mode 0311", "unreadable-2": "plain, level 2 has mode 0311", "unreadable-3": "plain, level 3 has mode 0311"}[style])
 				c := map[string]any{"mask": mask, "start": start, "style": style}
 				if o.Died() {
 					run.Report(ev.Violation{Key: key, Class: "does-not-terminate", What: desc + fmt.Sprintf(": spok died or hung (signal=%s timeout=%v)", o.Signal, o.TimedOut), Case: c})
@@ -449,6 +533,9 @@ func c17Binary(run *ev.Run) int64 {
 						run.Report(ev.Violation{Key: key, Class: "found-outside-range", What: desc + ": no spokfile between cwd and $HOME, but spok listed " + firstLine(o.Stdout), Case: c})
 					}
 					continue
+				}
+				if o.Exit != 0 && unreadable >= want && unreadable > 0 {
+					continue // a directory that cannot be listed lies between cwd and the answer: an error is an answer
 				}
 				if o.Exit != 0 {
 					run.Report(ev.Violation{Key: key, Class: "enclosing-spokfile-missed", What: desc + fmt.Sprintf(": the spokfile at level %d should be found, spok said: %s", want, firstLine(strings.TrimSpace(o.Stderr))), Case: c})
